@@ -590,8 +590,25 @@ fn project_from_json(v: &Value) -> Project {
 }
 
 fn config_yaml(mode: &str, schema_output: &str, resolvers: Option<&str>) -> String {
+    config_yaml_plugins(mode, schema_output, resolvers, &[], false)
+}
+
+/// `plugins`: names for `extensions.nitrogql.plugins` (built-in plugins run natively inside the CLI);
+/// `flow`: YAML flow sequence `[a, b]` instead of a block sequence
+fn config_yaml_plugins(mode: &str, schema_output: &str, resolvers: Option<&str>, plugins: &[&str], flow: bool) -> String {
     let mut s = String::new();
-    s.push_str("schema: ./schema/*.graphql\ndocuments: ./ops/**/*.graphql\nextensions:\n  nitrogql:\n    generate:\n");
+    s.push_str("schema: ./schema/*.graphql\ndocuments: ./ops/**/*.graphql\nextensions:\n  nitrogql:\n");
+    if !plugins.is_empty() {
+        if flow {
+            s.push_str(&format!("    plugins: [{}]\n", plugins.iter().map(|p| format!("\"{p}\"")).collect::<Vec<_>>().join(", ")));
+        } else {
+            s.push_str("    plugins:\n");
+            for p in plugins {
+                s.push_str(&format!("      - \"{p}\"\n"));
+            }
+        }
+    }
+    s.push_str("    generate:\n");
     s.push_str(&format!("      mode: {mode}\n      schemaOutput: {schema_output}\n"));
     if let Some(r) = resolvers {
         s.push_str(&format!("      resolversOutput: {r}\n"));
@@ -628,12 +645,33 @@ fn corpus_project_standalone() -> Project {
     Project { files, has_import: false }
 }
 
+/// the smallest project where a plugin contributes a schema addition (a virtual schema file in the file store
+/// that exists on no disk) next to two schema files, an operation file and an imported fragment
+fn corpus_project_plugin() -> Project {
+    let mut files = BTreeMap::new();
+    files.insert("graphql.config.yaml".into(), config_yaml_plugins("with-loader-ts-5.0", "./gen/schema.d.ts", Some("./gen/resolvers.d.ts"), &[MODEL_PLUGIN], false));
+    files.insert("schema/a.graphql".into(), "type Query {\n  me: User!\n}\n".into());
+    files.insert("schema/b.graphql".into(), "type User @model(type: \"string\") {\n  name: String\n}\n".into());
+    files.insert("ops/q.graphql".into(), "#import F from \"./f.graphql\"\nquery Q {\n  me { ...F }\n}\n".into());
+    files.insert("ops/f.graphql".into(), "fragment F on User {\n  name\n}\n".into());
+    Project { files, has_import: true }
+}
+
+const MODEL_PLUGIN: &str = "nitrogql:model-plugin";
+const SCALARS_PLUGIN: &str = "nitrogql:graphql-scalars-plugin";
+
 fn gen_project(rng: &mut Rng) -> Project {
     let mut files = BTreeMap::new();
     let mode = *rng.pick(&["with-loader-ts-5.0", "with-loader-ts-4.0", "standalone-ts-4.0", "standalone-ts-4.0"]);
     let so = *rng.pick(&["./gen/schema.d.ts", "./schema.d.ts", "./a/b/types.d.ts", "./ops/schema.d.ts"]);
     let ro = if rng.coin() { Some(*rng.pick(&["./gen/resolvers.d.ts", "./r.d.ts"])) } else { None };
-    files.insert("graphql.config.yaml".to_string(), config_yaml(mode, so, ro));
+    // built-in plugins (they run inside the CLI, no host needed). The model plugin contributes a schema addition
+    // (`directive @model`), which the CLI registers as a virtual schema file; the scalars plugin contributes one
+    // only for a schema loaded from JavaScript, i.e. never here.
+    let plugin_sets: [&[&str]; 7] = [&[], &[], &[], &[MODEL_PLUGIN], &[MODEL_PLUGIN], &[SCALARS_PLUGIN], &[SCALARS_PLUGIN, MODEL_PLUGIN]];
+    let plugins: &[&str] = *rng.pick(&plugin_sets);
+    let model = plugins.contains(&MODEL_PLUGIN);
+    files.insert("graphql.config.yaml".to_string(), config_yaml_plugins(mode, so, ro, plugins, rng.coin()));
     // ---- schema: object types T0..Tk-1 with scalar fields and links
     let k = 1 + rng.below(4);
     let scalars = ["Int", "String", "ID", "Boolean", "Float"];
@@ -673,6 +711,7 @@ fn gen_project(rng: &mut Rng) -> Project {
             1 => format!("{indent}\"\"\"\n{indent}block é\n{indent}\"\"\"\n"),
             2 if astral && same_line => format!("{indent}\"😀\" "), // stays on the line of the field (§9-an)
             3 => format!("{indent}# comment 😀 é\n"),
+            4 => format!("{indent}\"説明 é{}\"\n", if astral { " 😀" } else { "" }),
             _ => String::new(),
         }
     };
@@ -683,16 +722,22 @@ fn gen_project(rng: &mut Rng) -> Project {
         }
         s.push_str(&descr(rng, "", false).replace("\"😀\" ", ""));
         s.push_str(head);
+        // the plugin's directive: on the whole object (with the TypeScript type) or on single fields
+        let obj_model = model && rng.chance(1, 4);
+        if obj_model {
+            s.push_str(&format!(" @model(type: \"{}\")", rng.pick(&["string", "{ id: string }", "Model<'日本😀'>", "import('./m').M"])));
+        }
         s.push_str(" {\n");
         let ind = *rng.pick(&["  ", "    ", "\t"]);
         for (n, t, _) in fields {
             let d = descr(rng, ind, true);
+            let dir = if model && !obj_model && rng.chance(1, 3) { " @model" } else { "" };
             if d.ends_with(' ') {
                 s.push_str(&d);
-                s.push_str(&format!("{n}: {t}\n"));
+                s.push_str(&format!("{n}: {t}{dir}\n"));
             } else {
                 s.push_str(&d);
-                s.push_str(&format!("{ind}{n}: {t}\n"));
+                s.push_str(&format!("{ind}{n}: {t}{dir}\n"));
             }
         }
         s.push_str("}\n");
@@ -841,7 +886,19 @@ fn gen_project(rng: &mut Rng) -> Project {
         if rng.coin() {
             s.push_str("# a comment\n");
         }
-        s.push_str(&format!("query Q{q} {{\n{body}}}\n{local_frags}"));
+        // variables whose default values are non-ASCII string literals (standalone mode prints them inline)
+        let mut vars = String::new();
+        if rng.chance(1, 3) {
+            let nv = 1 + rng.below(2);
+            let mut defs = vec![];
+            for v in 0..nv {
+                let d = if rng.chance(3, 4) { format!(" = \"{}\"", rng.pick(&lits)) } else { String::new() };
+                defs.push(format!("$v{v}: String!{d}"));
+                body.push_str(&format!("  vg{v}: greeting(text: $v{v})\n"));
+            }
+            vars = format!("({})", defs.join(if rng.coin() { ", " } else { " " }));
+        }
+        s.push_str(&format!("query Q{q}{vars} {{\n{body}}}\n{local_frags}"));
         files.insert(path, s);
     }
     Project { files, has_import }
@@ -942,6 +999,24 @@ impl<'a> Ctx<'a> {
             self.rep.fail("O", "e2e:no-map-emitted", "generate wrote no .map file", case.clone());
         }
         let imp = if p.has_import { "with-import" } else { "no-import" };
+        // plugins with a schema addition: each registers one virtual schema file (it exists on no disk) in the file
+        // store, after the schema files read from disk
+        let cfg_text = p.files.get("graphql.config.yaml").cloned().unwrap_or_default();
+        let n_virtual = cfg_text.matches(MODEL_PLUGIN).count().min(1);
+        for mode in ["with-loader-ts-5.0", "with-loader-ts-4.0", "standalone-ts-4.0"] {
+            if cfg_text.contains(&format!("mode: {mode}")) {
+                self.rep.count(&format!("e2e:project:mode:{mode}"));
+            }
+        }
+        if p.files.iter().any(|(k, v)| k.starts_with("ops/") && v.lines().any(|l| l.contains("$v") && l.contains("= \"") && !l.is_ascii())) {
+            self.rep.count("e2e:project:variable-default-non-ascii");
+        }
+        if p.files.iter().any(|(k, v)| k.starts_with("schema/") && v.contains("@model")) {
+            self.rep.count("e2e:project:schema-uses-plugin-directive");
+        }
+        if cfg_text.contains("plugins:") {
+            self.rep.count(&format!("e2e:project:plugins-configured:{}", if n_virtual > 0 { "with-schema-addition" } else { "no-schema-addition" }));
+        }
         // every generated declaration file has its map
         for f in &all {
             let s = f.to_string_lossy();
@@ -987,10 +1062,19 @@ impl<'a> Ctx<'a> {
             let names: Vec<String> = v["names"].as_array().unwrap().iter().map(|x| x.as_str().unwrap().to_string()).collect();
             // sources resolve (relative to the map) to input files
             let mut src_texts = vec![];
-            for s in &sources {
+            // entries of `sources` that stand for a plugin's virtual file. The property constrains the entries that
+            // SEGMENTS reference; an unreferenced entry for a virtual file is tolerated (counted), at most one per
+            // plugin with a schema addition. A segment that references it is judged below.
+            let mut virtual_idx: Vec<usize> = vec![];
+            for (six, s) in sources.iter().enumerate() {
                 let abs = normalize(&m.parent().unwrap().join(s));
                 if !inputs.contains(&abs) {
-                    self.rep.fail("O", "e2e:source-not-an-input", &format!("{rel}: sources entry {s:?} resolves to {abs:?}, not a GraphQL input file"), case.clone());
+                    if virtual_idx.len() < n_virtual && !abs.exists() {
+                        virtual_idx.push(six);
+                        self.rep.count("note:sources-lists-a-plugin's-virtual-file");
+                    } else {
+                        self.rep.fail("O", "e2e:source-not-an-input", &format!("{rel}: sources entry {s:?} resolves to {abs:?}, not a GraphQL input file"), case.clone());
+                    }
                 }
                 src_texts.push(std::fs::read_to_string(&abs).unwrap_or_default());
             }
@@ -1000,17 +1084,21 @@ impl<'a> Ctx<'a> {
             reqs.push(Sexp::call("sm.check", vec![Sexp::str(generated.as_str()), Sexp::str(mappings.as_str()), Sexp::int(sources.len() as i128), Sexp::int(names.len() as i128)]));
             reqs.push(Sexp::call("sm.decode", vec![Sexp::str(mappings.as_str())]));
             reqs.push(Sexp::call("sm.strict", vec![Sexp::str(mappings.as_str())]));
-            metas.push((rel, sources, names, src_texts, is_op, generated));
+            metas.push((rel, sources, names, src_texts, is_op, generated, virtual_idx));
         }
         let ans = self.drv.batch(&reqs);
         // K for the file map: model's source list for every operation file and the schema outputs
         let mut store: Vec<String> = p.files.keys().filter(|k| k.starts_with("schema/")).cloned().collect();
         store.sort();
+        for _ in 0..n_virtual {
+            store.push("(plugin)".to_string()); // FileKind::Schema, added by the plugin host after the files from disk
+        }
+        let nschema = nschema + n_virtual;
         let mut opfiles: Vec<String> = p.files.keys().filter(|k| k.starts_with("ops/")).cloned().collect();
         opfiles.sort();
         store.extend(opfiles);
         let mut named_by_map: BTreeMap<String, Vec<(String, i128, String)>> = BTreeMap::new();
-        for (i, (rel, sources, names, src_texts, is_op, generated)) in metas.iter().enumerate() {
+        for (i, (rel, sources, names, src_texts, is_op, generated, virtual_idx)) in metas.iter().enumerate() {
             // K: sources = model's sourceFiles
             let own = store.iter().position(|f| {
                 let stem = f.trim_end_matches(".graphql");
@@ -1029,7 +1117,10 @@ impl<'a> Ctx<'a> {
             let fm = self.drv.one(&req);
             self.rep.k_cases += 1;
             let model_sources: Vec<String> = fm.args().get(1).map(|l| l.as_list().unwrap_or(&[]).iter().filter_map(|x| x.as_int()).map(|ix| store[ix as usize].clone()).collect()).unwrap_or_default();
-            let real_sources: Vec<String> = sources.iter().map(|s| {
+            let real_sources: Vec<String> = sources.iter().enumerate().map(|(six, s)| {
+                if virtual_idx.contains(&six) {
+                    return "(plugin)".to_string();
+                }
                 let abs = normalize(&root.join(rel).parent().unwrap().join(s));
                 abs.strip_prefix(&root).map(|x| x.to_string_lossy().to_string()).unwrap_or_else(|_| abs.to_string_lossy().to_string())
             }).collect();
@@ -1054,8 +1145,6 @@ impl<'a> Ctx<'a> {
                 let glines: Vec<Vec<u16>> = generated.split('\n').map(|l| l.encode_utf16().collect()).collect();
                 let is_id = |c: u16| is_name_char(c) || c == b'$' as u16;
                 for (si, s) in segs.iter().enumerate() {
-                    let Some(ni) = s.name else { continue };
-                    let name = names.get(ni.max(0) as usize).cloned().unwrap_or_default();
                     let Some(gl) = glines.get(s.line) else { continue }; // reported by sm.check
                     if s.col < 0 || s.col as usize > gl.len() {
                         continue; // reported by sm.check
@@ -1063,6 +1152,15 @@ impl<'a> Ctx<'a> {
                     let a = s.col as usize;
                     let non_ascii_before = gl[..a].iter().any(|c| *c > 127);
                     let tag = if non_ascii_before { "after-non-ascii-text" } else { "ascii-line" };
+                    // any segment (named, unnamed, range-closing): its generated column is a token boundary of the
+                    // generated text, never strictly inside an identifier, and never inside a surrogate pair
+                    if a > 0 && a < gl.len() && ((is_id(gl[a - 1]) && is_id(gl[a])) || (0xD800..0xDC00).contains(&gl[a - 1])) {
+                        self.rep.fail("O", &format!("e2e:generated-column-inside-token:{tag}"), &format!("{rel}: segment {si} at generated {}:{a} falls inside {:?}", s.line, String::from_utf16_lossy(&gl[a.saturating_sub(12)..gl.len().min(a + 12)])), case.clone());
+                        continue;
+                    }
+                    self.rep.count("e2e:generated-column-token-boundary-checked");
+                    let Some(ni) = s.name else { continue };
+                    let name = names.get(ni.max(0) as usize).cloned().unwrap_or_default();
                     let end = match segs.get(si + 1) {
                         Some(n) if n.line == s.line && n.name.is_none() && n.col >= s.col && (n.col as usize) <= gl.len() => n.col as usize,
                         _ => {
@@ -1095,6 +1193,12 @@ impl<'a> Ctx<'a> {
                 if src < 0 || src as usize >= sources.len() {
                     prev_named = None;
                     continue; // reported by sm.check
+                }
+                if virtual_idx.contains(&(src as usize)) {
+                    // the referenced entry must resolve to one of the GraphQL input files; a virtual file is none
+                    self.rep.fail("O", "e2e:segment-into-virtual-source", &format!("{rel}: segment {si} references sources[{src}] = {:?}, a plugin's virtual file — not one of the GraphQL input files (sources = {sources:?})", sources[src as usize]), case.clone());
+                    prev_named = None;
+                    continue;
                 }
                 let text = &src_texts[src as usize];
                 let slines: Vec<&str> = text.split('\n').collect();
@@ -1389,6 +1493,7 @@ fn main() {
         ctx.project(&corpus_project(), &cli, &scratch, 0);
         ctx.project(&corpus_project_astral(), &cli, &scratch, 0);
         ctx.project(&corpus_project_standalone(), &cli, &scratch, 0);
+        ctx.project(&corpus_project_plugin(), &cli, &scratch, 0);
         let nproj = args.budget(40, 400);
         for i in 0..nproj {
             let p = gen_project(&mut rng);
